@@ -815,3 +815,14 @@ LEVEL_NOTE = ("Trusted: Coq kernel, extraction, OCaml drivers, Rust harness, gen
               "function is proved for fish, PowerShell, elvish, nushell and zsh (generator models, tied byte for byte on every "
               "run); zsh level 3 (the eval'd ((...)) action) is oracle-only.")
 # ---- end zsh generator model ----
+# ---- round 4: the zsh model reads value names, terminators, last, conflicts over groups ----
+LEVEL_TEXT = (LEVEL_TEXT +
+              "  Round 4: the zsh generator model also writes value names (as they are, between the colons of an option spec), "
+              "value terminators (through escape_value, in the *term: prefix of a positional spec) and exclusion lists that "
+              "expand argument groups; the class of the whole-script theorems additionally asks value names and terminators to "
+              "be free of quote, backslash and hash bytes (at the shell-word level escape_value keeps ANY terminator inside the "
+              "quotes), every zsh theorem is re-proved on the extended model, the class is satisfiable with both "
+              "(C17_zsh_script_value_name_terminator_nonvacuous) and sharp for value names: a quote in a value name ends the "
+              "quoted spec early and the help of the next option is read outside the quotes "
+              "(C17_zsh_script_untamed_value_name_refuted; family of the recorded finding C17-names-unescaped).")
+# ---- end round 4 ----
